@@ -614,7 +614,13 @@ Definition shift_int (o : op) (small : bool) (z : Z) (c2 : cst) : res cst :=
     | OShl =>
       let r := z * 2 ^ sc in
       if big_overflow r then Err EShlOverflow else Ok (Num (Big r))
-    | _ => if small then Ok (Num (I64 (shr z sc))) else Ok (Num (Big (shr z sc)))
+    | _ =>
+      if small then Ok (Num (I64 (shr z sc)))
+      else
+        (* also the result of a right shift is checked: the left operand can
+           be a float or rational constant with an integer value above the limit *)
+        let r := shr z sc in
+        if big_overflow r then Err EShlOverflow else Ok (Num (Big r))
     end
   end.
 
